@@ -286,6 +286,9 @@ pub fn fixed_inputs() -> Vec<Input> {
         // labels that look like escape sequences of each other (underscores, hex codes)
         mk(["a b", "a_20_b", "_"], [n(a(1)), n(a(0)), Fm::bin(0, a(0), a(2))]),
         mk(["x_y", "x y", "x_5f_y"], [a(1), a(2), n(a(0))]),
+        // connectives whose two operands are the same statement / equivalent formulas
+        mk(["e1", "e2", "e3"], [Fm::bin(4, a(1), a(1)), Fm::bin(3, Fm::bin(1, a(0), a(2)), Fm::bin(1, a(2), a(0))), Fm::bin(2, Fm::bin(0, a(0), a(1)), Fm::bin(0, a(1), a(0)))]),
+        mk(["g1", "g2", "g3"], [Fm::bin(0, a(2), a(2)), Fm::bin(1, n(a(0)), n(a(0))), Fm::bin(4, Fm::bin(1, a(0), a(1)), Fm::bin(1, a(1), a(0)))]),
     ]
 }
 
